@@ -52,6 +52,14 @@ CHECKS = {
    text="reference-interpreter monitor: vp/model/sassscript.py (written from the specification's evaluation rules: frame stack with semi-global scopes, one scope per loop, closures sharing frames by reference, argument binding with defaults evaluated in the callee, @content in the caller's closure, @return unwinding loops, operators with short-circuit) predicts for every generated well-typed terminating program the ordered list of emitted declarations, the ordered Logger messages and the error status (incl. the inspected @error value); grass's output is read back with the independent CSS reader; every program is run as SCSS and as indented syntax in a sampled output style",
    note="programs outside the model are inconclusive; identical repeated warnings from one location are collapsed on both sides; serializer-time errors are deferred in the model as in the reference implementation",
    technique="runtime monitoring: reference-model (independent interpreter) oracle over recorded outputs and Logger traces of generated programs"),
+ "C18": dict(engine="vw+vp",
+   text="metamorphic monitor: byte-equal outputs (or common failure) are required between the SCSS and the indented print of every generated program (two independent printers), between each source and its rewrites (LF->CRLF/CR/FF, blank lines and trailing spaces, `//` comment lines, extra spaces around separable tokens, leading BOM/@charset, consistent and mixed `_`/`-` swaps in variable/function/mixin names), for golden-corpus inputs under newline/BOM/@charset rewrites, and between plain-CSS corpus outputs parsed as CSS and as SCSS; a list of Sass-only constructs must be rejected in CSS mode",
+   note="rewrites never touch string contents (the generator emits no raw newlines inside strings; corpus inputs with escaped newlines are skipped); one known finding (BOM shifts the re-indentation column of a first-line loud comment) is matched only for sources starting with an indented `/*`",
+   technique="runtime monitoring: metamorphic differential oracle over outputs of syntax/spelling variants of the same program"),
+ "C20": dict(engine="cli+vw+vp+valgrind",
+   text="differential monitor between the real `grass` binary built from the tree and the library it wraps (worker with StdFs/StdLogger in the same working directory): exit status, stdout/output-file bytes, stderr (rendered error in the selected Unicode/ASCII mode, warnings) for corpus, mutated and diagnostic/import-heavy inputs x all 2^5 flag combinations x {file, --stdin} x {stdout, output file}, plus injected I/O faults (missing file, directory as input, non-UTF-8 file or stdin, unwritable output) that must exit non-zero with empty stdout; thorough uses the repository's release profile (LTO, panic=abort) and adds valgrind memcheck on a sample",
+   note="the library oracle is the same code the binary links; process spawning bounds the volume (~6k invocations per quick run)",
+   technique="runtime monitoring: process-boundary differential oracle (exit code, fd 1/2, output file) + valgrind memcheck in thorough tier"),
 }
 
 ALL = ["C%02d" % i for i in range(1, 21)]
